@@ -546,8 +546,7 @@ def run_shard(shard):
                         loop.teardown()
         # the TTY transport reads LINES: junk lines of every shape (empty, CR LF only, blanks, a lone '<', binary junk,
         # half a tag) before / between / after valid one-line messages, every ordering of <= 2 junk lines per gap
-        import io
-        import itertools
+        import io as _io
 
         from indi.transport.server.tty import ConnectionHandler as TtyH
 
@@ -578,7 +577,7 @@ def run_shard(shard):
                     router.register_device(RecT())
                     src = VL.LineSource()
                     in_ctl = VL.CtlExecutor()
-                    h = TtyH(router, VL.aio_text(src, loop, in_ctl), VL.aio_text(io.StringIO(), loop, VL.CtlExecutor()))
+                    h = TtyH(router, VL.aio_text(src, loop, in_ctl), VL.aio_text(_io.StringIO(), loop, VL.CtlExecutor()))
                     task = loop.create_task(h.handle())
                     loop.quiesce()
                     for ln in lines:
